@@ -225,6 +225,35 @@ def run(P, R, tier):
             R.check(not listing, 'C19.h', g, st.test, 'the "empty partition: remove and skip" branch is decided from the expected sub-part list',
                     f'`{norm(st.test)}` decides from a directory listing that the partition is empty and removes its directories: one stale listing (taken before the sub-parts are visible) drops a '
                     'populated partition silently', construct=f'{g.name}: emptiness from a listing')
+    # ... nor is a state-changing step (move / copy) skipped because a LISTING does not show its source: `exists()` asks about the file itself, a listing can be
+    # stale - the rename is then skipped as "already done", the next rename overwrites the file that stayed behind, or a gap remains in the numbering
+    for g in helpers.values():
+        for st in [x for x in walk_own(g.node) if isinstance(x, ast.If)]:
+            acts = [c for b in st.body for c in ast.walk(b) if isinstance(c, ast.Call) and astq.fs_call(c) in ('move', 'mv', 'rename', 'cp', 'copy', 'put', 'cp_file')]
+            if not acts:
+                continue
+            e_ = astq.expand(g, st.test)
+            srcs = astq.sources(g, st.test)
+            listing = [c for c in ast.walk(e_) if isinstance(c, ast.Call) and (astq.fs_call(c, {'ls', 'listdir', 'find', 'glob', 'walk'})
+                                                                                 or (lambda r: r and r[0] == 'func' and astq.performs(P, r[1], lambda cc, gg: bool(astq.fs_call(cc, {'ls', 'listdir', 'find', 'glob'})), depth=2))(P.resolve_call(g, c)))]
+            for nm in srcs:
+                for d_ in astq.assignments(g, nm):
+                    if d_[0] == 'expr' and isinstance(d_[1], ast.AST):
+                        listing += [c for c in ast.walk(d_[1]) if isinstance(c, ast.Call) and (astq.fs_call(c, {'ls', 'listdir', 'find', 'glob', 'walk'})
+                                                                                              or (lambda r: r and r[0] == 'func' and astq.performs(P, r[1], lambda cc, gg: bool(astq.fs_call(cc, {'ls', 'listdir', 'find', 'glob'})), depth=2))(P.resolve_call(g, c)))]
+            R.check(not listing, 'C19.h', g, st.test, f'{g.name}: the move is conditioned on the file itself (exists), not on a directory listing',
+                    f'`{norm(st.test)[:70]}` decides from a directory listing whether `{norm(acts[0])[:40]}` runs: one stale listing that omits the source makes the step be skipped silently '
+                    '("already moved") - the file stays under its old name, and the next rename overwrites it or leaves a gap', construct=f'{g.name}: action conditioned on a listing')
+    # futures of steps handed to a thread pool are asked for their result: `concurrent.futures.wait` (and a plain `with` exit) never re-raise, so an exception that
+    # exhausted the retry budget stays in its Future and the call returns normally with the file missing
+    for h_ in [F] + list(helpers.values()):
+        subs_ = [c for c in astq.own_calls(h_) if isinstance(c.func, ast.Attribute) and c.func.attr in ('submit', 'apply_async')]
+        if not subs_:
+            continue
+        asked = [c for c in astq.own_calls(h_) if isinstance(c.func, ast.Attribute) and c.func.attr in ('result', 'exception') and not c.args]
+        R.check(bool(asked), 'C19.a', h_, subs_[0], 'every future of a submitted step is asked for its result (a failure surfaces)',
+                f'`{norm(subs_[0])[:60]}` submits a step whose Future is never asked for its result (only waited for): an exception of the step - a fault that outlasted the retries - is '
+                'swallowed and the call returns normally', construct=f'{h_.name}: futures asked for their result')
     # C19.f: a list handed to a retried writer as `metadata_collector=` receives one entry PER ATTEMPT; whoever consumes it takes exactly one entry
     # (an index), never the whole list
     for g in helpers.values():
@@ -285,6 +314,20 @@ def run(P, R, tier):
                     return True
             return False
         dirty = []
+        # helpers defined next to the retried function and called from it run once per ATTEMPT too: what they append to captured containers is appended again
+        for c in astq.own_calls(g):
+            r_ = P.resolve_call(g, c)
+            if r_ and r_[0] == 'func' and r_[1] in helpers.values() and not r_[1].tags.get('retry') and r_[1] is not g:
+                h2 = r_[1]
+                loc2 = set(h2.params) | {n_.id for n_ in walk_own(h2.node) if isinstance(n_, ast.Name) and isinstance(n_.ctx, ast.Store)}
+                for x in walk_own(h2.node):
+                    if isinstance(x, ast.Call) and isinstance(x.func, ast.Attribute) and x.func.attr in ('append', 'extend', 'insert', 'add', 'update', 'setdefault') \
+                            and isinstance(x.func.value, ast.Name) and x.func.value.id not in loc2:
+                        dirty.append(x)
+                    if isinstance(x, (ast.Assign, ast.AugAssign)):
+                        for t in (x.targets if isinstance(x, ast.Assign) else [x.target]):
+                            if isinstance(t, ast.Subscript) and isinstance(t.value, ast.Name) and t.value.id not in loc2:
+                                dirty.append(x)
         for c in astq.own_calls(g):
             if isinstance(c.func, ast.Attribute) and any(c.func.attr == m or c.func.attr.startswith(m + '_') for m in MUT):
                 b_ = base_name(c.func.value)
